@@ -4,6 +4,7 @@ import numpy as np
 from skgstat import SpaceTimeVariogram
 
 from .common import quiet, frs, fr, parse_nums, parse_ints, all_close, gen_coords
+from .common import guarded
 
 INFO = dict(
     rule='seeded location sets (uniform / lattice, so that distances hit space edges exactly) x (locations x time '
@@ -43,6 +44,7 @@ def build(case):
                                   model='product-sum', use_nugget=case.get('use_nugget', False))
 
 
+@guarded
 def check_case(ctx, case):
     try:
         V = build(case)
@@ -127,6 +129,7 @@ def check_case(ctx, case):
                 return
 
 
+@guarded
 def check_widen(ctx, case):
     """the table must not depend on what the instance computed before: build with a small maxlag, read,
     widen the spatial reach in place, compare with a fresh instance"""
